@@ -1,5 +1,5 @@
 SPECIFICATION MCSpec
-CONSTANTS MaxIn = 2  MaxOps = 4  MidRunChunks = TRUE  TinyInput = TRUE  Bugs = {}
+CONSTANTS MaxIn = 1  MaxOps = 4  MidRunChunks = TRUE  TinyInput = TRUE  Bugs = {}
  Encs = {"stream"}  Grants = {"one", "big"}  Checks = {"crc", "none"}  BSizes = {0, 1}
 VIEW MCView
 INVARIANTS TypeOK NotBad DecodableLeGiven NoEmptyBlock SeqAgrees
